@@ -37,7 +37,7 @@ one() {
   [ $v = caught ] && rm -f "$LOG"
 }
 export -f one; export V SCR B J
-for id in $IDS; do for d in $V/mutants/$id/*.diff; do [ -f "$d" ] && echo "$id $d"; done; done > $SCR/list.$$
+for id in $IDS; do for d in $V/mutants/$id/*.diff; do [ -f "$d" ] && echo "$id $d"; done; done | grep -E "${ONLY:-.}" > $SCR/list.$$
 TMPOUT=$SCR/results.$$; : > $TMPOUT
 xargs -P $J -L 1 bash -c 'one $0 $1' < $SCR/list.$$ >> $TMPOUT
 # merge: newest verdict per (property, mutant)
